@@ -313,13 +313,27 @@ Lemma add_change_get : forall chg outs parent id tip k m,
   get_out (add_change outs chg parent id tip) k m = get_out outs k m.
 Proof.
   induction chg as [|[[k0 m0] v0] r IH]; intros outs parent id tip k m Hn; cbn [add_change]; [reflexivity|].
-  rewrite IH.
-  - rewrite get_save.
-    match goal with |- (if okey_eqb ?x k m then _ else _) = _ => destruct (okey_eqb x k m) eqn:E end;
-      [|reflexivity].
-    exfalso. apply okey_eqb_iff in E as [E1 E2]. cbn in E1, E2.
-    subst. apply (Hn v0). now left.
-  - intros v Hin. apply (Hn v). now right.
+  assert (Hn' : forall v, ~ In (k, m, v) (map (fun x => (fst (fst x), None, snd x)) r))
+    by (intros v Hin; apply (Hn v); now right).
+  destruct (get_out outs k0 None); [apply IH; exact Hn'|].
+  rewrite IH by exact Hn'.
+  rewrite get_save.
+  match goal with |- (if okey_eqb ?x k m then _ else _) = _ => destruct (okey_eqb x k m) eqn:E end;
+    [|reflexivity].
+  exfalso. apply okey_eqb_iff in E as [E1 E2]. cbn in E1, E2.
+  subst. apply (Hn v0). now left.
+Qed.
+
+(** add_change never changes a record that exists *)
+Lemma add_change_keeps : forall chg outs parent id tip k m o,
+  get_out outs k m = Some o -> get_out (add_change outs chg parent id tip) k m = Some o.
+Proof.
+  induction chg as [|[[k0 m0] v0] r IH]; intros outs parent id tip k m o Hg; cbn [add_change]; [exact Hg|].
+  destruct (get_out outs k0 None) eqn:E0; [apply IH; exact Hg|].
+  apply IH. rewrite get_save.
+  match goal with |- (if okey_eqb ?x k m then _ else _) = _ => destruct (okey_eqb x k m) eqn:E end;
+    [|exact Hg].
+  exfalso. apply okey_eqb_iff in E as [E1 E2]. cbn in E1, E2. subst. congruence.
 Qed.
 
 (** C03 (step form): a successful reservation takes only outputs that were free, marks
@@ -835,6 +849,7 @@ Lemma nodup_add_change : forall chg outs parent id tip,
   NoDup (map okey outs) -> NoDup (map okey (add_change outs chg parent id tip)).
 Proof.
   induction chg as [|[[k m] v] r IH]; intros outs parent id tip Hn; cbn [add_change]; [exact Hn|].
+  destruct (get_out outs k None); [apply IH; exact Hn|].
   apply IH. now apply nodup_save.
 Qed.
 
@@ -866,16 +881,21 @@ Qed.
 
 Lemma add_change_in : forall chg outs parent id tip k v,
   In (k, None, v) (map (fun x => (fst (fst x), @None N, snd x)) chg) ->
+  get_out outs k None = None ->
   exists o, get_out (add_change outs chg parent id tip) k None = Some o
             /\ r_root o = parent /\ r_tx o = Some id /\ r_status o = Unconfirmed.
 Proof.
-  induction chg as [|[[k0 m0] v0] r IH]; intros outs parent id tip k v Hin; [contradiction|].
+  induction chg as [|[[k0 m0] v0] r IH]; intros outs parent id tip k v Hin Hnone; [contradiction|].
   cbn [add_change].
-  destruct (classic_in (map (fun x => (fst (fst x), @None N, snd x)) r) k None) as [[v' Hin']|Hn].
-  - eapply IH; eauto.
-  - destruct Hin as [Heq|Hin]; [|exfalso; eapply Hn; eauto].
-    inversion Heq; subst k0 v0. rewrite add_change_get by exact Hn. rewrite get_save_same.
-    eexists; repeat split.
+  destruct (kid_eqb k0 k) eqn:Ek.
+  - (* the first entry with this key: written now, kept by the rest *)
+    apply kid_eqb_eq in Ek. subst k0. rewrite Hnone.
+    eexists. split; [apply add_change_keeps; apply get_save_same|]. repeat split.
+  - assert (Hne : k0 <> k) by (intros ->; rewrite kid_eqb_refl in Ek; discriminate).
+    destruct Hin as [Heq|Hin]; [inversion Heq; contradiction|].
+    destruct (get_out outs k0 None); [eapply IH; eauto|].
+    eapply IH; [exact Hin|]. rewrite get_save_other; [exact Hnone|].
+    intros [A B]. cbn in A. contradiction.
 Qed.
 
 Definition sv (o : orec) : N * status := (r_value o, r_status o).
@@ -964,7 +984,10 @@ Proof.
     + (* a change output: created by the lock, deleted by the cancel, absent before *)
       assert (m = None) as ->.
       { apply in_map_iff in Hin as (x & Heq & _). now inversion Heq. }
-      destruct (add_change_in (c_outs c) outs1 (c_parent c) id tip k v Hin) as (o & Hg & Hr & Ht & Hs).
+      assert (Hnone1 : get_out outs1 k None = None).
+      { rewrite H2 by exact Hn1. apply in_map_iff in Hin as ([[k' m'] v''] & Heq & Hin''). cbn in Heq.
+        inversion Heq; subst. exact (Houts _ _ _ Hin''). }
+      destruct (add_change_in (c_outs c) outs1 (c_parent c) id tip k v Hin Hnone1) as (o & Hg & Hr & Ht & Hs).
       rewrite Hg. unfold cancelled_rec, cancel_cond. rewrite Hr, Ht, Hs, Hpar, N.eqb_refl, optN_eqb_refl.
       cbn. apply in_map_iff in Hin as ([[k' m'] v''] & Heq & Hin''). cbn in Heq. inversion Heq; subst.
       now rewrite (Houts _ _ _ Hin'').
@@ -1070,9 +1093,10 @@ Lemma keys_ok_add_change P : forall chg outs parent id tip,
   keys_ok P (add_change outs chg parent id tip).
 Proof.
   induction chg as [|[[k m] v] r IH]; intros outs parent id tip Hk Hc; cbn [add_change]; [exact Hk|].
-  apply IH.
-  - apply keys_ok_save; [exact Hk|]. cbn. eapply Hc. now left.
-  - intros k' m' v' Hin. eapply Hc. right; eauto.
+  assert (Hc' : forall k' m' v', In (k', m', v') r -> P k') by (intros k' m' v' Hin; eapply Hc; right; eauto).
+  destruct (get_out outs k None); [apply IH; assumption|].
+  apply IH; [|exact Hc'].
+  apply keys_ok_save; [exact Hk|]. cbn. eapply Hc. now left.
 Qed.
 
 Lemma keys_ok_cancel_outputs P outs parent id : keys_ok P outs -> keys_ok P (cancel_outputs outs parent id).
